@@ -6,6 +6,8 @@ mod codec;
 mod engine;
 mod fio;
 mod gen;
+#[cfg(lzma_rust2_verif_shuttle)]
+mod mt;
 mod cont;
 mod p01;
 mod p02;
@@ -45,8 +47,14 @@ macro_rules! dispatch {
             "C11" => $f::<p11::C11>($($arg),*),
             "C12" => $f::<p12::C12>($($arg),*),
             "C16" => $f::<p16::C16>($($arg),*),
+            #[cfg(lzma_rust2_verif_shuttle)]
+            "C08" => $f::<mt::C08>($($arg),*),
+            #[cfg(lzma_rust2_verif_shuttle)]
+            "C09" => $f::<mt::C09>($($arg),*),
+            #[cfg(lzma_rust2_verif_shuttle)]
+            "C10" => $f::<mt::C10>($($arg),*),
             other => {
-                eprintln!("unknown property {other}");
+                eprintln!("unknown property {other} (in this build)");
                 std::process::exit(2);
             }
         }
